@@ -30,6 +30,7 @@ def demo_info(d):
     return place, (p.group(1) if p else None), (t.group(1) if t else None)
 
 def run_demo(d, place, crate, test):
+    os.makedirs(os.path.dirname(f'{W}/{place}'), exist_ok=True)
     shutil.copy(f'{d}/demo.rs', f'{W}/{place}')
     rc, out = sh(f'CARGO_TARGET_DIR={W}/target cargo test -p {crate} --offline --test {test} 2>&1 | tail -40', cwd=W, timeout=3600)
     ok = re.search(r'test result: ok', out) is not None and 'FAILED' not in out and 'error[' not in out and 'error:' not in out
